@@ -23,7 +23,8 @@ RULE = ("hist: seeded histories (5-55 ops) over <=10 responders on 4-9 paths tha
         "share prefixes (exact and matching, optional src / recv_port / argument "
         "template incl. predicates) interleaving create, enable, disable, one_shot, "
         "free, function replacement, permanent, CmdPeriod.run() - also armed to run "
-        "inside callbacks - with messages/bundles whose arguments are shorter, longer "
+        "inside callbacks - and responder functions that raise on their k-th "
+        "invocation (22 % of responders) with messages/bundles whose arguments are shorter, longer "
         "or different from templates; non-trivial = at least one expected invocation, "
         "one enabled responder that must stay silent and one state-changing op. "
         "pat: (pattern, 12 addresses) groups, pattern derived from an address by "
@@ -34,8 +35,8 @@ RULE = ("hist: seeded histories (5-55 ops) over <=10 responders on 4-9 paths tha
         "type tags, negative blob size, 3000-deep nesting, malformed address patterns) "
         "and mutations of valid packets; non-trivial = not decodable by the strict "
         "decoder although it starts like a packet, or valid with >1 message. "
-        "reg: add/re-add/remove/remove_all/run histories with removal and addition "
-        "during run; non-trivial = a removal followed by a run with >=2 actions. "
+        "reg: add/re-add/remove/remove_all/run histories in which a running action "
+        "removes a later / an earlier action / itself / everything or adds one; non-trivial = a removal followed by a run with >=2 actions. "
         "distinct = hash of history / pattern group / datagram bytes")
 ASSUMPTIONS = [
     "vf/model_dispatch.py:osc_match is the meaning of 'OSC 1.0 pattern' (per-part "
@@ -49,12 +50,20 @@ ASSUMPTIONS = [
     "function replacement on a one-shot responder, enable() after free(), None/"
     "predicate template items beyond the end of a message and responders whose "
     "state an earlier callback of the same dispatch changed are left open",
+    "after a responder function raised, responders of that message not registered "
+    "before it on its path are left open (the library abandons the dispatch of that "
+    "message); the raising invocation counts, a fired one-shot stays spent",
+    "an action removed by an earlier action of the same run must not run for "
+    "SystemAction/StartUp/CmdPeriod (the library re-checks the registry); for "
+    "ServerAction.run and NotificationCenter.notify (snapshot iteration) and for "
+    "actions added during a run it is left open and counted",
     "CPython 3.12 sys.monitoring LINE events count parser steps",
 ]
 MIN_COUNTERS = {
     'quick': {'hist_messages': 3000, 'invocations_checked': 2000,
               'order_pairs_checked': 200, 'one_shots_fired': 100,
               'in_callback_ops_total': 100, 'messages_shorter_than_template': 50,
+              'injected_callback_faults': 300, 'registry_removed_before_its_turn': 200,
               'pattern_pairs': 20000, 'pattern_pairs_expected_match': 2000,
               'fuzz_datagrams': 5000, 'fuzz_malformed': 2000,
               'fuzz_canaries_ok': 5000, 'parser_line_events': 100000,
@@ -63,6 +72,8 @@ MIN_COUNTERS = {
     'thorough': {'hist_messages': 100000, 'invocations_checked': 60000,
                  'order_pairs_checked': 5000, 'one_shots_fired': 3000,
                  'in_callback_ops_total': 3000,
+                 'injected_callback_faults': 8000,
+                 'registry_removed_before_its_turn': 5000,
                  'messages_shorter_than_template': 1500,
                  'pattern_pairs': 1000000, 'pattern_pairs_expected_match': 100000,
                  'fuzz_datagrams': 200000, 'fuzz_malformed': 80000,
